@@ -377,6 +377,9 @@ class AndExplorer:
         for n in own_nodes(self.fi.node):
             if isinstance(n, ast.AugAssign) and isinstance(n.target, ast.Name):
                 (grow if isinstance(n.op, ast.Add) else shrink).add(n.target.id)
+            if isinstance(n, ast.Assign) and len(n.targets) == 1 and isinstance(n.targets[0], ast.Name) and isinstance(n.value, ast.BinOp) \
+                    and isinstance(n.value.left, ast.Name) and n.value.left.id == n.targets[0].id:
+                (grow if isinstance(n.value.op, ast.Add) else shrink).add(n.targets[0].id)     # x = x + 1 / x = x - 1
         pos = grow - shrink
         for _ in range(3):
             for n in own_nodes(self.fi.node):
